@@ -89,6 +89,12 @@ func GenerateStratum(rng *rand.Rand, stratum string) *uni.Universe {
 		}
 		pkgs = append(pkgs, n)
 	}
+	if stratum == Collision && np >= 3 && rng.Intn(3) == 0 {
+		// Two packages whose names differ in letter case only (the registry
+		// still holds such pairs): they are different packages and different
+		// directories.
+		pkgs[2] = strings.ToUpper(pkgs[0])
+	}
 	vers := map[string][]string{}
 	latestOf := map[string]bool{}
 	for _, p := range pkgs {
@@ -188,10 +194,12 @@ func GenerateStratum(rng *rand.Rand, stratum string) *uni.Universe {
 				// bundleDependencies entry next to the regular declaration.
 				v.Reqs = append(v.Reqs, uni.Req{Name: q, Req: rq.Req, Scope: "bundle"})
 			}
-			if !rq.Opt && !rq.Dev && rq.Scope == "" && rng.Intn(4) == 0 {
+			if !rq.Opt && !rq.Dev && rq.Scope == "" && (rng.Intn(4) == 0 || stratum == Collision && rng.Intn(3) == 0) {
 				var a string
 				if stratum == Collision {
-					a = uni.Pick(rng, "al"+strings.TrimPrefix(q, "@s/"), pkgs[rng.Intn(len(pkgs))], "al")
+					// Mostly the name of a real package: directories that one
+					// package's dependents rely on are then claimed by another.
+					a = uni.Pick(rng, "al"+strings.TrimPrefix(q, "@s/"), pkgs[rng.Intn(len(pkgs))], pkgs[rng.Intn(len(pkgs))], "al")
 				} else {
 					// One alias per target package: a directory name never stands for
 					// two different packages in this stratum.
